@@ -25,9 +25,28 @@ type Ins struct {
 	N   int    `json:"n"` // repetition count (loops); 1 otherwise
 }
 
+// extractError: a source construct outside an extractor's grammar.  Each extraction is attempted on
+// its own (see `attempt`): the one that cannot be done is reported with its reason, so that the check
+// that needs it leaves out the extracted-program model and still runs everything else - refusing the
+// whole run would turn a change of the code into "no verdict".
+type extractError string
+
 func fail(format string, a ...interface{}) {
-	fmt.Fprintf(os.Stderr, "extract: "+format+"\n", a...)
-	os.Exit(3)
+	panic(extractError(fmt.Sprintf(format, a...)))
+}
+
+func attempt(f func() interface{}) (res interface{}) {
+	defer func() {
+		if r := recover(); r != nil {
+			if e, ok := r.(extractError); ok {
+				fmt.Fprintf(os.Stderr, "extract: %s\n", string(e))
+				res = map[string]interface{}{"error": string(e), "prog": []Ins{}, "control_flow": []map[string]string{{"stmt": "unsupported", "what": string(e), "line": "0"}}}
+				return
+			}
+			panic(r)
+		}
+	}()
+	return f()
 }
 
 func findFunc(f *ast.File, name, recv string) *ast.FuncDecl {
@@ -562,16 +581,21 @@ func recvWrites(repo, dir string) []map[string]string {
 func init() {
 	specials["extract"] = func(args []string) {
 		if len(args) < 1 {
-			fail("usage: drv extract <repo>")
+			fmt.Fprintln(os.Stderr, "usage: drv extract <repo>")
+			os.Exit(3)
 		}
 		repo := args[0]
 		out := map[string]interface{}{
-			"field_chain":  extractChain(repo+"/sm2/internal/fiat/addchain_sm2_64_field_inverse.go", "sm2FermatInvert_FiatAC"),
-			"scalar_chain": extractChain(repo+"/sm2/internal/fiat/addchain_sm2_64_scalar_inverse.go", "sm2ScalarFermatInvert_FiatAC"),
-			"add":          extractFormula(repo+"/sm2/internal/sm2_point.go", "Add"),
-			"double":       extractFormula(repo+"/sm2/internal/sm2_point.go", "Double"),
-			"seal_scratch_local": scratchIsLocal(repo+"/sm4/sm4_gcm_amd64.go", "Seal", "sealAsm"),
-			"open_scratch_local": scratchIsLocal(repo+"/sm4/sm4_gcm_amd64.go", "Open", "openAsm"),
+			"field_chain": attempt(func() interface{} {
+				return extractChain(repo+"/sm2/internal/fiat/addchain_sm2_64_field_inverse.go", "sm2FermatInvert_FiatAC")
+			}),
+			"scalar_chain": attempt(func() interface{} {
+				return extractChain(repo+"/sm2/internal/fiat/addchain_sm2_64_scalar_inverse.go", "sm2ScalarFermatInvert_FiatAC")
+			}),
+			"add":    attempt(func() interface{} { return extractFormula(repo+"/sm2/internal/sm2_point.go", "Add") }),
+			"double": attempt(func() interface{} { return extractFormula(repo+"/sm2/internal/sm2_point.go", "Double") }),
+			"seal_scratch_local": attempt(func() interface{} { return scratchIsLocal(repo+"/sm4/sm4_gcm_amd64.go", "Seal", "sealAsm") }),
+			"open_scratch_local": attempt(func() interface{} { return scratchIsLocal(repo+"/sm4/sm4_gcm_amd64.go", "Open", "openAsm") }),
 			"package_writes":     pkgWrites(repo, []string{"sm2", "sm2/internal", "sm2/internal/fiat", "sm3", "sm4", "utils"}),
 			"receiver_writes":    recvWrites(repo, "sm4"),
 		}
